@@ -9,6 +9,7 @@ import (
 	"crypto/ed25519"
 	"crypto/rsa"
 	"crypto/sha256"
+	"crypto/x509"
 	"encoding/base64"
 	"errors"
 	"fmt"
@@ -265,4 +266,61 @@ func removeBValue(raw []byte) []byte {
 		}
 		pos = i + 1
 	}
+}
+
+// VerifyZone checks the first DKIM-Signature of msg the way a next hop does: the key comes from
+// the TXT record the zone publishes at <s=>._domainkey.<d=>. It returns the d= value.
+func VerifyZone(msg []byte, lookup func(name string) (string, bool)) (string, error) {
+	fields, _, err := splitMessage(msg)
+	if err != nil {
+		return "", err
+	}
+	for _, f := range fields {
+		if !strings.EqualFold(strings.TrimSpace(f.name), "DKIM-Signature") {
+			continue
+		}
+		c := bytes.IndexByte(f.raw, ':')
+		tags := parseTags(string(f.raw[c+1:]))
+		d, s := stripWS(tags["d"]), stripWS(tags["s"])
+		txt, ok := lookup(s + "._domainkey." + d)
+		if !ok {
+			return d, errors.New("no key record for " + s + "._domainkey." + d)
+		}
+		pub, err := parseKeyRecord(txt)
+		if err != nil {
+			return d, err
+		}
+		return d, Verify(msg, pub)
+	}
+	return "", errors.New("no DKIM-Signature field")
+}
+
+// parseKeyRecord: RFC 6376 3.6.1, only what maddy publishes (v, k, p).
+func parseKeyRecord(txt string) (crypto.PublicKey, error) {
+	tags := parseTags(txt)
+	if v, ok := tags["v"]; ok && v != "DKIM1" {
+		return nil, errors.New("key record: bad version")
+	}
+	blob, err := base64.StdEncoding.DecodeString(stripWS(tags["p"]))
+	if err != nil {
+		return nil, fmt.Errorf("key record: p: %w", err)
+	}
+	switch tags["k"] {
+	case "", "rsa":
+		k, err := x509.ParsePKIXPublicKey(blob)
+		if err != nil {
+			return nil, fmt.Errorf("key record: %w", err)
+		}
+		rk, ok := k.(*rsa.PublicKey)
+		if !ok {
+			return nil, errors.New("key record: not an RSA key")
+		}
+		return rk, nil
+	case "ed25519":
+		if len(blob) != ed25519.PublicKeySize {
+			return nil, errors.New("key record: bad Ed25519 key length")
+		}
+		return ed25519.PublicKey(blob), nil
+	}
+	return nil, errors.New("key record: unknown k=" + tags["k"])
 }
